@@ -766,3 +766,71 @@ pub fn idx(i: u16, len: usize) -> usize {
     debug_assert!(len > 0);
     ((i as usize) * len) >> 16
 }
+
+/// Thorough-tier extra for C02/C10/C11: the same generators and oracles against `des` built without the `cqueue`
+/// feature (BinaryHeap event set). Runs the separate crate /verif/harness-heap as a child.
+#[cfg(not(vcheck_heap_backend))]
+pub fn heap_backend_extra(id: &str, seed: u64, ev: &mut ExtraEvidence) -> Vec<Violation> {
+    let dir = verif_root().join("harness-heap");
+    let build = Command::new("cargo")
+        .arg("build")
+        .arg("--quiet")
+        .current_dir(&dir)
+        .env("CARGO_NET_OFFLINE", "true")
+        .output();
+    match build {
+        Ok(o) if o.status.success() => {}
+        Ok(o) => {
+            let err = String::from_utf8_lossy(&o.stderr);
+            let tail: Vec<&str> = err.lines().rev().take(5).collect();
+            ev.fields.insert("binary_heap_backend".into(), json!({"status": "not run: build failed", "detail": tail}));
+            return Vec::new();
+        }
+        Err(e) => {
+            ev.fields.insert("binary_heap_backend".into(), json!({"status": format!("not run: {e}")}));
+            return Vec::new();
+        }
+    }
+    let root = verif_root().join("replays").join(format!("heap-backend-{id}"));
+    let _ = std::fs::create_dir_all(&root);
+    let _ = std::fs::copy(verif_root().join("known_findings.json"), root.join("known_findings.json"));
+    let exe = dir.join("target").join("debug").join("vcheck-heap");
+    let out = Command::new(&exe)
+        .arg(id)
+        .arg("thorough")
+        .env("VERIF_ROOT", &root)
+        .env("VERIF_SEED", seed.to_string())
+        .output();
+    let Ok(out) = out else {
+        ev.fields.insert("binary_heap_backend".into(), json!({"status": "not run: cannot start vcheck-heap"}));
+        return Vec::new();
+    };
+    let text = String::from_utf8_lossy(&out.stdout).to_string();
+    let evals = std::fs::read_to_string(root.join("evidence").join(format!("{id}.json")))
+        .ok()
+        .and_then(|t| serde_json::from_str::<Value>(&t).ok())
+        .and_then(|v| v["coverage"]["evaluations"].as_u64())
+        .unwrap_or(0);
+    ev.evaluations += evals;
+    let mut violations = Vec::new();
+    if out.status.code() == Some(1) {
+        let mut lines = text.lines();
+        while let Some(l) = lines.next() {
+            if let Some(rest) = l.strip_prefix("VIOLATION ") {
+                let replay = rest.split(' ').find_map(|t| t.strip_prefix("replay=")).unwrap_or("").to_string();
+                let sig = lines.next().and_then(|l| l.trim().strip_prefix("signature: ")).unwrap_or("unknown").to_string();
+                let msg = lines.next().and_then(|l| l.trim().strip_prefix("detail: ")).unwrap_or("").to_string();
+                violations.push(Violation {
+                    sig: format!("binary-heap-backend:{sig}"),
+                    msg: format!("{msg} (BinaryHeap event set; replay with {} {id} quick --replay <file>)", exe.display()),
+                    replay,
+                });
+            }
+        }
+    }
+    ev.fields.insert(
+        "binary_heap_backend".into(),
+        json!({"status": if out.status.code() == Some(2) { "inconclusive" } else { "ran" }, "evaluations": evals, "violations": violations.len()}),
+    );
+    violations
+}
